@@ -74,6 +74,13 @@ func parseDocument(document string, eventReceiver events.DataEventReceiver, rule
 	p.RemoveErrorListeners()
 	p.AddErrorListener(errorListener)
 	p.SetErrorHandler(new(bailErrorStrategy))
+	// The grammar allows separators (whitespace, comments) before, between and
+	// after the items of a container, which is ambiguous when there is no item
+	// at all. Full-context prediction explores that ambiguity at a cost that
+	// grows with the square of the number of separators, with a constant of
+	// megabytes: a 500 byte list of a hundred empty comments allocated 1 GB.
+	// SLL prediction decides the same grammar without it.
+	p.GetInterpreter().SetPredictionMode(antlr.PredictionModeSLL)
 
 	listener := newCteListener(eventReceiver)
 	if rules != nil {
